@@ -992,6 +992,39 @@ fn main() {
         println!("pubsub_frame_by_frame {} received={:?}{}", n, got, if got != want { "  NOT-THE-MESSAGES-SENT" } else { "" });
         std::process::exit(0);
       }
+      "router_recv_churn" => {
+        // router_recv_churn <rcvtimeo_ms> <connect_every_ms> <peers>: public API, inproc. A ROUTER with RCVTIMEO waits in recv()
+        // while a new DEALER connects every <connect_every_ms>; nothing is ever sent. recv() must fail about RCVTIMEO after it began.
+        let rcvtimeo: i32 = it.next().unwrap().parse().unwrap();
+        let every: u64 = it.next().unwrap().parse().unwrap();
+        let peers: usize = it.next().unwrap().parse().unwrap();
+        let rt = tokio::runtime::Builder::new_multi_thread().worker_threads(4).enable_all().build().unwrap();
+        let (ms, res) = rt.block_on(async move {
+          let ctx = rzmq::Context::new().unwrap();
+          let router = ctx.socket(rzmq::SocketType::Router).unwrap();
+          router.set_option(rzmq::socket::options::RCVTIMEO, rcvtimeo).await.unwrap();
+          router.bind("inproc://router-churn").await.unwrap();
+          let ctx2 = ctx.clone();
+          let churn = tokio::spawn(async move {
+            let mut keep = Vec::new();
+            for _ in 0..peers {
+              let d = ctx2.socket(rzmq::SocketType::Dealer).unwrap();
+              let _ = d.connect("inproc://router-churn").await;
+              keep.push(d);
+              tokio::time::sleep(Duration::from_millis(every)).await;
+            }
+            keep
+          });
+          let t0 = Instant::now();
+          let r = router.recv().await;
+          let ms = t0.elapsed().as_millis();
+          let _ = churn.await;
+          (ms, format!("{:?}", r.map(|m| m.size())))
+        });
+        println!("router_recv_churn rcvtimeo={} recv returned {} after {} ms{}", rcvtimeo, res, ms,
+                 if rcvtimeo > 0 && ms > (rcvtimeo as u128) + 300 { "  WAITED-LONGER-THAN-RCVTIMEO" } else { "" });
+        std::process::exit(0);
+      }
       "dealer_tx_wait" => {
         // dealer_tx_wait <sndtimeo_ms> <hold_ms> <cycles>: public API. DEALER (SNDTIMEO as given) connected to a ROUTER that
         // reads everything. Task A sends two-frame messages frame by frame - send(part, MORE), sleep <hold_ms>, send(last) -
